@@ -260,4 +260,30 @@ RECIPES = [
     ("C06", "neutral", [], CB, "        tf = None\n        if isinstance(save, abc.MutableMapping):\n            try:", "        from collections.abc import MutableMapping as _Mapping\n\n        tf = None\n        if isinstance(save, _Mapping):\n            try:",
      "cbtf: the mapping class imported under another name"),
     ("C06", "neutral", [], CB, "        psi = linalg.solve(-k[zz], k[zx])\n", "        import scipy.linalg\n\n        psi = scipy.linalg.solve(-k[zz], k[zx])\n", "_solve_eig: the solver by its full dotted name"),
+    ("C06", "neutral", [], CB, "    pvnz = Omega != 0.0\n", "    pvnz = ~(Omega == 0.0)\n", "cbtf: the non-zero mask as the complement of the zero mask"),
+    ("C06", "break", ["C06-R1"], CB, "    pvnz = Omega != 0.0\n", "    pvnz = ~(Omega != 0.0)\n", "cbtf: the mask selects the zero frequencies"),
+    ("C06", "neutral", [], CB, "    pvnz = Omega != 0.0\n", "    pvnz = freq != 0.0\n", "cbtf: zero test on the frequency itself (2 pi f is zero exactly where f is)"),
+    ("C06", "neutral", [], CB, "    pvnz = Omega != 0.0\n", "    pvnz = Omega.astype(bool)\n", "cbtf: truth of the circular frequency as the mask"),
+    ("C06", "neutral", [], CB, "    rbe = linalg.solve(ff_info.v[bref, :6].T, ff_info.v[:, :6].T).T\n", "    v6 = ff_info.v[:, :6]\n    rbe = linalg.solve(v6[bref].T, v6.T).T\n",
+     "cbcheck: the six lowest modes as a temporary, reference rows selected afterwards"),
+    ("C06", "break", ["C06-R5"], CB, "    rbe = linalg.solve(ff_info.v[bref, :6].T, ff_info.v[:, :6].T).T\n", "    v6 = ff_info.v[:, :6]\n    rbe = linalg.solve(v6[bset[:6]].T, v6.T).T\n",
+     "cbcheck: rbe normalised at the first six boundary DOF (through the temporary)"),
+    ("C06", "neutral", [], CB, "    nz = m.any(axis=0) | k.any(axis=0)\n    z = ~nz\n", "    z = ~m.any(axis=0) & ~k.any(axis=0)\n    nz = ~z\n", "_solve_eig: De Morgan on the column masks"),
+    ("C06", "neutral", [], CB, "        nz = kbb.any(axis=0)\n        z = ~nz\n", "        z = (kbb == 0).all(axis=0)\n        nz = ~z\n", "_cbcoordchk: null columns as `all zero` along the axis"),
+    ("C06", "neutral", [], CB, "        rb2[nz, :] = rbmodes\n        rb2[z, :] = 0.0\n", "        rb2[np.flatnonzero(nz)] = rbmodes\n        rb2[np.flatnonzero(z)] = 0.0\n", "_cbcoordchk: integer positions of the masks for the scatter"),
+    ("C06", "break", ["C06-R6"], CB, "        rb2[nz, :] = rbmodes\n        rb2[z, :] = 0.0\n", "        rb2[np.flatnonzero(z)] = 0.0\n        rb2[np.flatnonzero(z)] = rbmodes\n",
+     "_cbcoordchk: the computed modes scattered to the null rows (integer positions)"),
+    ("C06", "neutral", [], CB, "            refpoint_bool = np.zeros(lb, dtype=bool)\n            refpoint_bool[refpoint] = True\n", "            refpoint_bool = np.isin(np.arange(lb), refpoint)\n",
+     "_cbcoordchk: membership mask of the reference DOF through np.isin"),
+    ("C06", "neutral", [], CB, "            M = M[:, pv]\n", "            M = M.T[pv].T\n", "cbreorder: columns selected as rows of the transpose"),
+    ("C06", "neutral", [], CB, "            M = M[:, pv]\n", "            M = M[..., pv]\n", "cbreorder: ellipsis for the row axis of a matrix"),
+    ("C06", "neutral", [], CB, "            pv = np.hstack((b, q))\n", "            pv = np.append(b, q)\n", "cbreorder: np.append"),
+    ("C06", "neutral", [], CB, "            pv = np.hstack((b, q))\n", "            pv = np.array([*b, *q])\n", "cbreorder: starred list display"),
+    ("C06", "break", ["C06-R3"], CB, "            pv = np.hstack((b, q))\n", "            pv = np.append(q, b)\n", "cbreorder: np.append in the wrong order"),
+    ("C06", "neutral", [], CB, "    qset = locate.flippv(bset, n)\n    nq = len(qset)\n", "    qset = locate.flippv(bset, n)\n    nq = n - len(bset)\n", "cbcheck: number of modal DOF as a difference of sizes"),
+    ("C06", "neutral", [], CB, "        bset = np.sort(bseto)\n        if not (bset == bseto).all():", "        bset = np.array(sorted(bseto))\n        if np.any(bset != bseto):", "cbcheck: sorted() and any(!=)"),
+    ("C06", "neutral", [], CB, "        i = np.argsort(np.argsort(bseto))\n", "        order = np.argsort(bseto, kind=\"stable\")\n        i = np.empty_like(order)\n        i[order] = np.arange(nb)\n",
+     "cbcheck: rank as the inverse permutation, written as a scatter"),
+    ("C06", "break", ["C06-R7"], CB, "        i = np.argsort(np.argsort(bseto))\n", "        order = np.argsort(bseto, kind=\"stable\")\n        i = np.empty_like(order)\n        i[np.arange(nb)] = order\n",
+     "cbcheck: the scatter that reproduces the sorting permutation itself (finding F17 again)"),
 ]
